@@ -300,6 +300,7 @@ func checkC04(p *Prog, r *Report) {
 	engineFailureRule(p, r, "R9")
 	r.Rule("R15", "the engine hands on what its stages produced: the list returned by every stage call of the generic UpdateList (delete, copy-to-selected, copy-to-all, merge) flows into the next stage or into the result — a stage result that is dropped makes a write that was answered with success have no effect as soon as the stage works on a copy")
 	engineStageResultsUsed(p, r, "R15")
+	singleApplicationRule(p, r, "R17")
 	r.Rule("R16", "a restricted write stays restricted: the dispatcher extracts the partial and delete filters of every reply, notify and write — not conditioned on the classifier or on the command's optional function element — and hands exactly that pair to the handler (shared with C02-R15); a filter that is lost turns a partial write or a delete into a wholesale replacement of the function data, write-protected elements included")
 	c02FiltersExtracted(p, r, "R16")
 	mergeTruthTable(p, r, "R10")
